@@ -4,6 +4,8 @@ from pyvc import fx_obligations
 
 def run(tier, seed):
     res = fx_obligations.c13_fx(tier)
+    from props import dynconfirm
+    dynconfirm.apply(res, "C13", "shared")
     res.trusted_base.append("lemma L3 (spec/LEMMAS.md): disjoint footprints + immutable shared tables => every interleaving yields the sequential results")
     res.assumptions.append("CPython executes per-object operations of different threads without tearing (GIL); user-supplied lexer= classes honour the same frame")
     return res
